@@ -60,6 +60,15 @@ def gen_plan(rng, i: int, tier: str) -> dict:
     if r2.random() < 0.12:
         # the DC's services answer completely and then abort (or close) the connection at once: the caller already holds its answer
         plan["dc"]["after_response"] = r2.choice(("rst", "rst", "eof"))
+    k_ = r2.random()
+    if k_ < 0.08:
+        # fault: every connection is reset by the peer inside (or right before) its m-th message; both flavours must fail alike
+        plan["delivery"] = {"rst_at": [r2.choice((0, 1, 1, 2)), r2.choice((0, 5, 16, 30))]}
+        plan["conn_reset"] = True
+        plan["concurrent"] = False
+    elif k_ < 0.16:
+        # the socket takes only a few bytes per send() call (full send buffer, slow reader)
+        plan["short_writes"] = {"max": r2.choice((1, 7, 16, 100))}
     n_ops = rng.randint(1, 6 if tier == "thorough" else 4)
     cur = gkdi.interval_of_filetime(now)
     for _ in range(n_ops):
@@ -170,6 +179,8 @@ def judge_one(plan, tr: P.Trace, fl: str):
         probes["shared_cache_two_principals"] = 1
     if plan.get("concurrent_shared_cache"):
         probes["concurrent_calls_one_cache"] = 1
+    if plan.get("short_writes"):
+        probes["short_writes"] = 1
 
     def V(clause, cond, detail, ot=None):
         et = ""
@@ -190,6 +201,10 @@ def judge_one(plan, tr: P.Trace, fl: str):
         if slow and ot.outcome.kind == "raise" and isinstance(ot.outcome.exc, TimeoutError):
             probes["timed_out_on_slow_dc"] = 1  # (a read timeout is policy, not fidelity; the flavours must still agree, see below)
             continue
+        if plan.get("conn_reset"):
+            probes["connection_reset_mid_conversation"] = 1
+            if ot.outcome.kind == "raise" and isinstance(ot.outcome.exc, (ConnectionError, EOFError)):
+                continue  # (failing with the connection error is the expected outcome; the flavours must agree, see below)
         flap = bool(plan.get("conn_flap"))
         if flap:
             probes["key_port_refused_once"] = 1
@@ -295,9 +310,11 @@ def judge_one(plan, tr: P.Trace, fl: str):
             return V("request-fidelity", "getkey-count", f"{len(plan['_pool'])} GetKey requests nobody asked for (concurrent execution)"), probes
         n135 = sum(1 for a in att if a[1] == 135)
         nport = sum(1 for a in att if a[1] == plan["dc"]["gkdi_port"])
-        if n135 != nport or n135 + nport != len(att) or any(a[0] != offline.DC for a in att):
+        if not plan.get("conn_reset") and (n135 != nport or n135 + nport != len(att) or any(a[0] != offline.DC for a in att)):
             return V("request-fidelity", "wrong-endpoint", f"connections {att} do not pair mapper and mapped port {plan['dc']['gkdi_port']}"), probes
         att = []
+    if plan.get("conn_reset"):
+        att = []  # (a conversation cut short on the mapper connection never gets to the second connect: nothing to pair)
     for k in range(0, len(att) - 1, 2):
         if att[k][1] != 135 or att[k + 1][1] != plan["dc"]["gkdi_port"] or att[k][0] != offline.DC or att[k + 1][0] != offline.DC:
             return V("request-fidelity", "wrong-endpoint", f"connections went to {att[k]} then {att[k + 1]}, mapper announced port {plan['dc']['gkdi_port']}"), probes
@@ -320,7 +337,7 @@ class C17(common.Check):
             "current, corner, previous-L0 and DC-future positions, nonce and public-key mode, both layouts) against the reference DC with "
             "per-plan knobs: 4 hashes x {DH,P256,P384}, SIDs of 1..15 sub-authorities, domain/forest names 0..40 chars incl. non-ASCII, "
             "GKDI port, padding policy, header signing, envelope shape (L2 omitted at 31), DC clock skew, PRNG segmentation and latencies, "
-            "DNS discovery, a DC whose PDUs arrive after pauses of 0.5..6 s, one cache shared by calls in flight at the same time (different L0 epochs), one cache shared by a principal who only receives the public key (protect) and an authorised one (unprotect of that blob), services that abort or close the connection right after every complete Response, a key service port that refuses the first connection attempt of every operation (failing with that error is accepted, asking for another key is not), security context (StubCtx 1..3 legs / real NTLM / real Negotiate). Each plan runs once per flavour; request log, "
+            "DNS discovery, a DC whose PDUs arrive after pauses of 0.5..6 s, one cache shared by calls in flight at the same time (different L0 epochs), one cache shared by a principal who only receives the public key (protect) and an authorised one (unprotect of that blob), connections reset by the peer inside a handshake message or reply, sockets that take only a few bytes per send(), services that abort or close the connection right after every complete Response, a key service port that refuses the first connection attempt of every operation (failing with that error is accepted, asking for another key is not), security context (StubCtx 1..3 legs / real NTLM / real Negotiate). Each plan runs once per flavour; request log, "
             "results and sync-vs-async transcripts are judged; in 30% of the plans the async execution runs all operations at once (the "
             "conversations then interleave under the PRNG scheduler and are compared per connection) and a third execution runs them as "
             "caller threads using the sync API, pre-empted at PRNG-chosen line events inside dpapi_ng. Non-trivial = every plan; distinct = distinct plan.")
@@ -331,7 +348,7 @@ class C17(common.Check):
     assumptions = ["Kerberos is not simulated", "loopback TCP of the statement is replaced by the simulated transport",
                    "ept_map max_towers / handle / referent ids and alloc_hint are recorded, not judged"]
     required_fired = ("unprotect_ok", "protect_seed", "protect_public", "future_key", "non_member_unprotect", "dns", "real_ctx", "l2_omitted",
-                      "pos_corner", "prev_l0", "blob_pub", "concurrent_ops", "thread_ops", "thread_overlap", "slow_dc", "no_cache_argument", "key_port_refused_once", "failed_with_connection_refused", "connection_aborted_after_reply", "shared_cache_two_principals", "concurrent_calls_one_cache")
+                      "pos_corner", "prev_l0", "blob_pub", "concurrent_ops", "thread_ops", "thread_overlap", "slow_dc", "no_cache_argument", "key_port_refused_once", "failed_with_connection_refused", "connection_aborted_after_reply", "shared_cache_two_principals", "concurrent_calls_one_cache", "short_writes", "connection_reset_mid_conversation")
 
     def cases(self, tier, seed):
         rng = prng.stream(seed, "C17")
